@@ -137,7 +137,7 @@ Proof.
       * constructor; [|constructor]. repeat split; vm_compute; reflexivity.
       * constructor; [|constructor; [|constructor]]; repeat split; vm_compute; reflexivity.
     + split; [vm_compute; reflexivity|]. split; [vm_compute; reflexivity|]. split; [vm_compute; discriminate|].
-      split; [vm_compute; discriminate|]. eexists. split; [vm_compute; reflexivity|].
+      split; [vm_compute; discriminate|]. split; [vm_compute; reflexivity|]. eexists. split; [vm_compute; reflexivity|].
       split; [constructor; [split; vm_compute; reflexivity|constructor]|].
       constructor; [vm_compute; reflexivity|constructor; [vm_compute; reflexivity|constructor]].
   - vm_compute. eexists. eexists. repeat split; reflexivity.
